@@ -278,6 +278,7 @@ public:
 
   RangeSet& operator=(const RangeSet<T>& set)
   {
+    if (this == &set) return *this;
     clear_();
     for (const auto& it : set.ranges_)
     {
@@ -408,6 +409,7 @@ public:
 
   MultiRange& operator=(const MultiRange<T>& mr)
   {
+    if (this == &mr) return *this;
     clear_();
     for (size_t i = 0; i < mr.ranges_.size(); ++i)
     {
